@@ -33,8 +33,10 @@ INVS = ["I_Exact", "I_NoDup", "I_Sound"]
 
 
 def cfg(kind, np_, maxper, maxtotal, mix, mindepth, gen=False):
-    t = ['CONSTANTS TreeKind = "%s"  NP = %d  MaxPer = %d  MaxTotal = %d  Mix = "%s"  MinDepth = %d' % (
-        kind, np_, maxper, maxtotal, mix, mindepth),
+    # mindepth: the shallowest tags, or (shallowest, deepest) when the universe goes deeper than 3 components
+    mindepth, maxdepth = mindepth if isinstance(mindepth, tuple) else (mindepth, 3)
+    t = ['CONSTANTS TreeKind = "%s"  NP = %d  MaxPer = %d  MaxTotal = %d  Mix = "%s"  MinDepth = %d  MaxDepth = %d' % (
+        kind, np_, maxper, maxtotal, mix, mindepth, maxdepth),
         "  Tree <- MCTree", "  StreamSet <- MCStreams", "  Record = %s" % ("TRUE" if gen else "FALSE"), "INIT Init"]
     if gen:
         t += ["NEXT GenNext"]
@@ -52,6 +54,10 @@ def plan(ctx):
         ("cart1:2:same", "cart1", 2, 2 if Q else 3, 4 if Q else 6, "same", 2),
         ("dotcart:3", "dotcart", 3, 2, 4 if Q else 5, "innersame", 2),
     ]
+    # the element the outer combinator broadcasts between its keys is a SCHEMA of the inner combinator (a mutable dict
+    # in the code): sibling port C strictly deeper than the inner schemas, <= 2 (thorough: 3) tokens per port
+    mc += [("dotdot:3:innerbroadcast", "dotdot", 3, 2 if Q else 3, 4 if Q else 5, "innerbroadcast", 1),
+           ("dotcart:3:innerbroadcast", "dotcart", 3, 2, 4 if Q else 5, "innerbroadcast", (2, 4))]
     if not Q:
         mc += [("cart1:3:same", "cart1", 3, 2, 5, "same", 2),
                ("cart2:2:same", "cart2", 2, 3, 6, "same", 3),
@@ -66,8 +72,14 @@ def plan(ctx):
         ("cartdot:3", "cartdot", 3, 1 if Q else 2, 3 if Q else 4, "any", 2, None),
         ("dot:2:offdomain", "dot", 2, 2, 3, "offdomain", 1, None),
     ]
+    # exhaustive: >= 2 tokens on C (one inner schema under several keys), every arrival order; simulation: the whole family
+    gen += [("dotdot:3:innershared", "dotdot", 3, 2, 4, "innershared", 1, None),
+            ("dotcart:3:innershared", "dotcart", 3, 2, 4, "innershared", (2, 4), None),
+            ("dotdot:3:innerbroadcast:sim", "dotdot", 3, 3, 6, "innerbroadcast", 1, {"num": ctx.pick(250, 1500), "depth": 14}),
+            ("dotcart:3:innerbroadcast:sim", "dotcart", 3, 3, 6, "innerbroadcast", (2, 4), {"num": ctx.pick(120, 1500), "depth": 14})]
     if not Q:
         gen += [("dotdot:3", "dotdot", 3, 2, 4, "any", 1, {"num": 1500, "depth": 12}),
+                ("dotdot:3:innershared:5", "dotdot", 3, 3, 5, "innershared", 1, None),
                 ("cart2:2:same", "cart2", 2, 2, 4, "same", 3, None),
                 ("cartcart:3", "cartcart", 3, 1, 3, "any", 2, None),
                 ("dotcart:3:innermixed", "dotcart", 3, 1, 3, "innermixed", 2, None),
@@ -138,9 +150,15 @@ def expected_bag(exp):
 CART_ITEMS = {"cart1": None, "cart2": None, "dotcart": ("A", "B"), "cartcart": None, "cartdot": None}
 
 
+# trees dot(inner(A,B), C): how much deeper than A, B the schemas emitted by the inner combinator are
+INNER_SCHEMA_EXTRA_DEPTH = {"dotdot": 0, "dotcart": 1}
+
+
 def mix_class(stream, kind="dot"):
     """same: all ports one depth; mixed: several depths, but the items of every cartesian product agree;
-    cartmixed: the items of a cartesian product have different depths; offdomain: a port carries two depths."""
+    cartmixed: the items of a cartesian product have different depths; offdomain: a port carries two depths;
+    innerbroadcast: dot(inner(A,B),C) with C strictly deeper than the schemas of the inner combinator: the element
+    that the outer combinator broadcasts / pours between its keys is an inner SCHEMA (a dict in the code)."""
     per_port = {p["port"]: {len(t) for t in p["tags"]} for p in stream}
     if any(len(d) > 1 for d in per_port.values()):
         return "offdomain"
@@ -150,7 +168,33 @@ def mix_class(stream, kind="dot"):
         ports = CART_ITEMS[kind] or tuple(per_port)
         if len(set().union(*(per_port[p] for p in ports))) > 1:
             return "cartmixed"
+    if kind in INNER_SCHEMA_EXTRA_DEPTH and "C" in per_port:
+        if min(per_port["C"]) > max(per_port["A"] | per_port["B"]) + INNER_SCHEMA_EXTRA_DEPTH[kind]:
+            return "innerbroadcast"
     return "mixed"
+
+
+def shared_inner_schema(b):
+    """dot(inner(A,B),C): does the rule prescribe one inner schema (same A and B tokens) in >= 2 combinations, i.e. is
+    one schema object of the inner combinator stored under several keys of the outer one?  Returns 0 (no), 1 (yes) or
+    2 (yes, and in this arrival order a C token it joins arrives after the inner schema was complete AND had already been
+    emitted in another combination: the stored schema is used again after an emission)."""
+    groups = {}
+    for sch in b["expected"]:
+        d = {x[0]: _ts(x[1]) for x in sch}
+        if "C" in d:
+            groups.setdefault((d.get("A"), d.get("B")), []).append(d["C"])
+    best = 0
+    pos = {(h["port"], _ts(h["tag"])): i for i, h in enumerate(b["hist"])}
+    for (a, bb), cs in groups.items():
+        if len(cs) < 2:
+            continue
+        best = max(best, 1)
+        if ("A", a) in pos and ("B", bb) in pos:
+            done = max(pos[("A", a)], pos[("B", bb)])
+            if max(pos.get(("C", c), -1) for c in cs) > done:
+                best = 2
+    return best
 
 
 def symptom(real_bag, exp_bag, error):
@@ -318,6 +362,12 @@ def bind(ctx, R, behaviours):
                     ctx.count("replays:>=2_combinations_expected")
                 if any(len(p["tags"][0]) != len(b["stream"][0]["tags"][0]) for p in b["stream"]) and b["tree"].startswith("dot") and b["expected"]:
                     ctx.count("replays:dot_broadcast_parent_to_child")
+                if mix == "innerbroadcast" and b["tree"] in INNER_SCHEMA_EXTRA_DEPTH:
+                    sh = shared_inner_schema(b)
+                    if sh >= 1:
+                        ctx.count("replays:inner_schema_shared_by_>=2_deeper_keys:%s" % b["tree"])
+                    if sh >= 2:
+                        ctx.count("replays:inner_schema_used_again_after_an_emission:%s" % b["tree"])
                 if len(ctx.samples) < 3 and b["ok"] and len(b["expected"]) >= 2 and mix == "mixed" and len(ctx.samples) == sum(1 for x in ctx.samples if x["tree"] != b["tree"]):
                     ctx.sample({"tree": b["tree"], "stream": {p["port"]: [_ts(t) for t in p["tags"]] for p in b["stream"]},
                                 "arrival_order": [h["port"] + ":" + _ts(h["tag"]) for h in b["hist"]],
@@ -348,7 +398,11 @@ def bind(ctx, R, behaviours):
                               kind, [(p["port"], [_ts(t) for t in p["tags"]]) for p in stream],
                               [p + ":" + _ts(t) for p, t in ex[0][1]], ex[0][0], [p + ":" + _ts(t) for p, t in ex[1][1]], ex[1][0]))
     for k in ("replays:dot:same", "replays:dot:mixed", "replays:cart1:same", "replays:dotcart:same", "replays:>=2_combinations_expected",
-              "replays:dot_broadcast_parent_to_child", "streams_with_several_orders_replayed"):
+              "replays:dot_broadcast_parent_to_child", "streams_with_several_orders_replayed",
+              "replays:dotdot:innerbroadcast", "replays:dotcart:innerbroadcast",
+              "replays:inner_schema_shared_by_>=2_deeper_keys:dotdot", "replays:inner_schema_shared_by_>=2_deeper_keys:dotcart",
+              "replays:inner_schema_used_again_after_an_emission:dotdot",
+              "replays:inner_schema_used_again_after_an_emission:dotcart"):
         ctx.require(ctx.counters.get(k, 0) > 0, "vacuous: class %s never exercised" % k)
     ctx.extra["extra"] = {k: v for k, v in ctx.counters.items() if k.startswith("extra:")}
     ctx.assumptions += [
